@@ -27,6 +27,33 @@ class Closure:
         self.node, self.env, self.interp = node, env, interp
 
 
+class DefClosure(Closure):
+    """a nested `def` (additive): the FunctionDef node + the defining environment (captured by reference, as python cells are)"""
+
+
+class GenCM:
+    """the object returned by calling a @contextmanager generator function (additive, C41): body not yet executed"""
+
+    def __init__(self, fn, env, ci, qual):
+        self.fn, self.env, self.ci, self.qual = fn, env, ci, qual
+
+
+class SuperProxy:
+    """zero-argument super() inside a method of an in-scope class (additive, C41): attribute calls go to the contract-supplied
+    model of the (library) base class through extra_builtins["method:<name>"] with the proxy as first argument"""
+
+    def __init__(self, obj):
+        self.obj = obj
+
+
+def is_contextmanager_def(fn):
+    for d in getattr(fn, "decorator_list", []):
+        nm = d.id if isinstance(d, ast.Name) else (d.attr if isinstance(d, ast.Attribute) else "")
+        if nm == "contextmanager":
+            return True
+    return False
+
+
 IDENTITY = object()      # marker: the element expression of a comprehension is the element itself
 
 
@@ -99,6 +126,9 @@ class Interp:
             return True
         if isinstance(v, dict):
             return len(v) > 0
+        if "truthy" in self.world.extra_builtins:
+            # contract-supplied truth value of an otherwise uninterpreted value (additive): returns a bool / z3 Bool
+            return self.world.extra_builtins["truthy"](self, [v], {})
         raise Unsupp(f"truthiness of {v!r}")
 
     def decide(self, v) -> bool:
@@ -627,6 +657,9 @@ class Interp:
                 return ci.name
             if attr in ci.methods:
                 return BoundMethod(obj, attr)
+            cstate = getattr(self.ctx, "class_state", None)
+            if cstate is not None and (ci.name, attr) in cstate:
+                return cstate[(ci.name, attr)]          # class-level mutable state declared by the contract (additive, C41)
             raise Unsupp(f"class attribute {ci.name}.{attr}")
         if isinstance(obj, Opaque) and obj.what.startswith("module:"):
             full = obj.what.split(":")[1] + "." + attr
@@ -640,6 +673,8 @@ class Interp:
             return FuncRef("builtin", obj.name + "." + attr)
         if obj is None:
             raise RaiseExc("AttributeError", node)
+        if isinstance(obj, SuperProxy):
+            return BoundMethod(obj, attr)
         raise Unsupp(f"attribute {attr} of {obj!r}")
 
     def e_Subscript(self, n, env):
@@ -889,6 +924,9 @@ class Interp:
         # isinstance needs the syntactic type expression
         if isinstance(n.func, ast.Name) and n.func.id == "isinstance" and "isinstance" not in env:
             return self.isinstance_(self.eval(n.args[0], env), n.args[1], env)
+        if isinstance(n.func, ast.Name) and n.func.id == "super" and not n.args and not n.keywords and "super" not in env \
+                and isinstance(env.get("self"), Rec):
+            return SuperProxy(env["self"])          # additive (C41)
         f = self.eval(n.func, env)
         args = []
         for a in n.args:
@@ -969,6 +1007,8 @@ class Interp:
         raise Unsupp(f"isinstance against {nm}")
 
     def call(self, f, args, kwargs, node=None):
+        if isinstance(f, DefClosure):
+            return self.call_def_closure(f, args, kwargs)
         if isinstance(f, BoundMethod):
             return self.call_bound(f, args, kwargs, node)
         if isinstance(f, Closure):
@@ -1042,6 +1082,11 @@ class Interp:
         if self.ctx.depth > MAX_DEPTH:
             raise Unsupp(f"call depth exceeded at {qual}")
         env = self.bind(fn, args, kwargs)
+        if fn is not self.top_fn and is_contextmanager_def(fn):
+            # calling a @contextmanager generator function only creates the context manager (additive, C41); `with` runs it
+            if ci is not None:
+                env.setdefault("__class_info__", ci)
+            return GenCM(fn, env, ci, qual)
         if ci is not None:
             env.setdefault("__class_info__", ci)
         self.ctx.depth += 1
@@ -1325,6 +1370,26 @@ class Interp:
     def b_reversed(self, args, kw, node):
         return PyList(list(reversed(self.iter_concrete(args[0]))))
 
+    def b_sorted(self, args, kw, node):
+        """sorted(xs) for a concrete-length list/tuple of (symbolic) integers: insertion sort, forking on each comparison"""
+        if kw:
+            raise Unsupp("sorted with key/reverse")
+        v = args[0]
+        if isinstance(v, (SeqV, SetV, MapV)):
+            raise Unsupp("sorted of a symbolic-length collection")
+        out = []
+        for x in self.iter_concrete(v):
+            if not is_intlike(x):
+                raise Unsupp(f"sorted of non-integer element {x!r}")
+            pos = len(out)
+            for k, y in enumerate(out):
+                lt = (x < y) if isinstance(x, int) and isinstance(y, int) else (to_int_term(x) < to_int_term(y))
+                if self.ctx.branch(lt):
+                    pos = k
+                    break
+            out.insert(pos, x)
+        return PyList(out)
+
     def b_round(self, args, kw, node):
         v = args[0]
         if len(args) > 1:
@@ -1519,6 +1584,10 @@ class Interp:
             return
         if isinstance(s.value, ast.Yield):
             v = self.eval(s.value.value, env) if s.value.value is not None else None
+            hook = getattr(self.ctx, "yield_hook", None)
+            if hook is not None and env.get("yielded") is None:
+                hook(self, v, env)          # contract / `with`-supplied continuation of a generator-based context manager (additive)
+                return
             y = env.get("yielded")
             if y is None:
                 raise Unsupp("yield outside a generator under contract")
@@ -1528,6 +1597,29 @@ class Interp:
                 y.term = s_snoc(y.term, self.world.box(v, y.elem))
             return
         self.eval(s.value, env)
+
+    def s_FunctionDef(self, s, env):
+        """nested function definition (additive): binds the name to a closure over the current environment"""
+        if s.decorator_list:
+            raise Unsupp(f"decorated nested function {s.name} at line {s.lineno}")
+        env[s.name] = DefClosure(s, env, self)
+
+    def call_def_closure(self, c, args, kwargs):
+        if self.ctx.depth > MAX_DEPTH:
+            raise Unsupp(f"call depth exceeded at nested function {c.node.name}")
+        env = dict(c.env)
+        env.update(self.bind(c.node, args, kwargs))
+        self.ctx.depth += 1
+        saved = self.loop_counter, self.in_top
+        try:
+            self.in_top = False
+            self.exec_block(c.node.body, env)
+            return None
+        except ReturnExc as r:
+            return r.value
+        finally:
+            self.ctx.depth -= 1
+            self.loop_counter, self.in_top = saved
 
     def s_Pass(self, s, env):
         return
@@ -1615,6 +1707,10 @@ class Interp:
                 self.assign(e, x, env)
         elif isinstance(t, ast.Attribute):
             obj = self.eval(t.value, env)
+            cstate = getattr(self.ctx, "class_state", None)
+            if isinstance(obj, FuncRef) and obj.kind == "class" and cstate is not None and (obj.info.name, t.attr) in cstate:
+                cstate[(obj.info.name, t.attr)] = v          # declared class-level state (additive, C41)
+                return
             if not isinstance(obj, Rec):
                 raise Unsupp("attribute assignment on non-record")
             if "__set_" + t.attr in obj.cls.methods:
@@ -1630,6 +1726,8 @@ class Interp:
                 obj.items[idx] = v
             elif isinstance(obj, dict) and isinstance(idx, (str, int)):
                 obj[idx] = v
+            elif isinstance(obj, Rec) and "__setitem__" in obj.cls.methods:
+                self.call_method(obj, "__setitem__", [idx, v], {})          # additive (C41)
             else:
                 raise Unsupp("subscript assignment")
         else:
@@ -1639,6 +1737,15 @@ class Interp:
         for t in s.targets:
             if isinstance(t, ast.Name):
                 env.pop(t.id, None)
+            elif isinstance(t, ast.Subscript) and not isinstance(t.slice, ast.Slice) and isinstance(self.eval(t.value, env), Rec):
+                # del rec[key] (additive, C41): the class's own __delitem__, else the contract's model of the base class
+                obj, idx = self.eval(t.value, env), self.eval(t.slice, env)
+                if "__delitem__" in obj.cls.methods:
+                    self.call_method(obj, "__delitem__", [idx], {})
+                elif "method:__delitem__" in self.world.extra_builtins:
+                    self.world.extra_builtins["method:__delitem__"](self, [SuperProxy(obj), idx], {})
+                else:
+                    raise Unsupp("del of a subscript of a record without __delitem__")
             else:
                 raise Unsupp("del of non-name")
 
@@ -1728,16 +1835,29 @@ class Interp:
                 lo, hi, st = rargs[0], rargs[1], 1
             else:
                 lo, hi, st = rargs
-            if not isinstance(st, int) or st == 0:
-                raise Unsupp("symbolic range step")
+            if isinstance(st, bool):
+                st = int(st)
+            if isinstance(st, int) and st == 0:
+                raise RaiseExc("ValueError", s)        # range() arg 3 must not be zero
+            if not isinstance(st, int):
+                # symbolic step (additive, C43): python raises ValueError for step == 0; otherwise the SIGN of the step is
+                # decided by a path fork and the loop is the index loop  x = lo + st*counter  while x < hi (st > 0) / x > hi
+                if not is_sym_int(st):
+                    raise Unsupp("symbolic range step")
+                st_term = st
+                if self.ctx.branch(st_term == 0):
+                    raise RaiseExc("ValueError", s)
+                st_pos = self.ctx.branch(st_term > 0)
+            else:
+                st_term, st_pos = st, st > 0
             env[ivar] = 0   # iteration counter; loop variable = lo + st*counter
 
             def pre(e):
-                self.assign(s.target, to_int_term(lo) + st * to_int_term(e[ivar]), e)
+                self.assign(s.target, to_int_term(lo) + st_term * to_int_term(e[ivar]), e)
 
             def cond(e):
-                x = to_int_term(lo) + st * to_int_term(e[ivar])
-                return (x < to_int_term(hi)) if st > 0 else (x > to_int_term(hi))
+                x = to_int_term(lo) + st_term * to_int_term(e[ivar])
+                return (x < to_int_term(hi)) if st_pos else (x > to_int_term(hi))
             bound = lambda e: to_int_term(e[ivar]) >= 0
 
         def post(e):
@@ -1775,6 +1895,14 @@ class Interp:
             # names first assigned inside the body need no havoc
         for path in sorted(mutated_attr_paths(s.body)):
             self.havoc_path(env, path, ls)
+        # ghost state written by callee models inside the body (call logs ...): LoopSpec attribute `ghost_types` (additive, C43)
+        for gname, gtype in sorted((getattr(ls, "ghost_types", None) or {}).items()):
+            ctx.ghost[gname] = fresh(ctx, gtype, "ghost." + gname)
+        # objects mutated THROUGH CALLS inside the body (the syntactic modified-set above cannot see them): LoopSpec attribute
+        # `modifies` = names of local variables whose contents are havocked in place, identity kept (additive, C47)
+        for mname in (getattr(ls, "modifies", None) or ()):
+            from . import xmaps
+            xmaps.havoc_in_place(self, env[mname], mname)
         ctx.assume(inv_holds(env))
 
         def add_axioms(e):
@@ -1844,9 +1972,90 @@ class Interp:
 
     # ---- with / try (minimal)
     def s_With(self, s, env):
-        raise Unsupp("with statement")
+        """`with` (additive, C41) for (a) generator-based context managers of in-scope @contextmanager functions: the generator
+        body is executed with the with-body substituted for its single `yield` (an exception of the with-body is raised at the
+        yield, exactly as contextlib does), which needs try/finally with full semantics (World.strict_finally);
+        (b) records whose class defines __enter__/__exit__."""
+        if len(s.items) != 1:
+            raise Unsupp("with statement with several items")
+        item = s.items[0]
+        cm = self.eval(item.context_expr, env)
+        if isinstance(cm, GenCM):
+            if not getattr(self.world, "strict_finally", False):
+                raise Unsupp("with on a generator context manager needs World.strict_finally")
+            state = {"yields": 0}
+            saved_hook = getattr(self.ctx, "yield_hook", None)
+
+            def hook(it, value, genv):
+                state["yields"] += 1
+                if state["yields"] > 1:
+                    raise Unsupp("context manager generator yields twice")
+                self.ctx.yield_hook = saved_hook
+                try:
+                    if item.optional_vars is not None:
+                        self.assign(item.optional_vars, value, env)
+                    self.exec_block(s.body, env)
+                except ReturnExc as r:
+                    r.from_with_body = True          # a `return` of the with-body: leaves the enclosing function
+                    raise
+                finally:
+                    self.ctx.yield_hook = hook
+            self.ctx.yield_hook = hook
+            self.ctx.depth += 1
+            saved = self.loop_counter, self.in_top
+            try:
+                self.in_top = False
+                try:
+                    self.exec_block(cm.fn.body, cm.env)
+                except ReturnExc as r:
+                    # a `return` of the WITH-BODY travels through the generator's finally clauses and leaves the function;
+                    # a `return` of the generator itself (after its yield) just ends the context manager
+                    if getattr(r, "from_with_body", False):
+                        raise
+                    if state["yields"] == 0:
+                        raise Unsupp("context manager generator returned without yielding")
+                    return
+            finally:
+                self.ctx.depth -= 1
+                self.loop_counter, self.in_top = saved
+                self.ctx.yield_hook = saved_hook
+            if state["yields"] == 0:
+                raise Unsupp("context manager generator did not yield")
+            return
+        if isinstance(cm, Rec) and "__enter__" in cm.cls.methods and "__exit__" in cm.cls.methods:
+            v = self.call_method(cm, "__enter__", [], {})
+            if item.optional_vars is not None:
+                self.assign(item.optional_vars, v, env)
+            try:
+                self.exec_block(s.body, env)
+            except RaiseExc as r:
+                if self.truthy_concrete(self.call_method(cm, "__exit__", [ExcValue(r.name), ExcValue(r.name), None], {})):
+                    return
+                raise
+            except (ReturnExc, BreakExc, ContinueExc):
+                self.call_method(cm, "__exit__", [None, None, None], {})
+                raise
+            self.call_method(cm, "__exit__", [None, None, None], {})
+            return
+        raise Unsupp("with statement on an unsupported context manager")
+
+    def truthy_concrete(self, v):
+        t = self.truthy(v) if v is not None else False
+        if isinstance(t, bool):
+            return t
+        return self.ctx.branch(t)
 
     def s_Try(self, s, env):
+        if s.finalbody and not s.handlers and getattr(self.world, "strict_finally", False):
+            # full try/finally semantics (additive, opt-in per World): the finally clause also runs when the body leaves by an
+            # exception, return, break or continue, which then continues to propagate
+            try:
+                self.exec_block(s.body, env)
+            except (RaiseExc, ReturnExc, BreakExc, ContinueExc):
+                self.exec_block(s.finalbody, env)
+                raise
+            self.exec_block(s.finalbody, env)
+            return
         if s.finalbody and not s.handlers:
             try:
                 self.exec_block(s.body, env)
